@@ -34,7 +34,7 @@ pub fn c10(ctx: &Ctx) -> PropResult {
             continue;
         }
         // INPUT reads the process's standard input and RANDOM's value is not reproducible: covered by C12 / C15
-        if name == "INPUT" || name == "INPUT_PROMPT" || name == "RANDOM" || name == "TIME" {
+        if name == "INPUT" || name == "INPUT_PROMPT" || name == "TIME" {
             continue;
         }
         let total: usize = ex.len().pow(*arity as u32);
@@ -71,7 +71,9 @@ pub fn c10(ctx: &Ctx) -> PropResult {
                 src.push_str(&format!("x{i} <- {text}\n"));
                 args.push(format!("x{i}"));
             }
-            src.push_str(&format!("DISPLAY(\"call\")\nr <- {name}({})\nDISPLAY(r)\n", args.join(", ")));
+            // RANDOM's value is not reproducible (its range contract is C15's): only that the call ends well
+            let show = if name == "RANDOM" { "DISPLAY(\"after\")" } else { "DISPLAY(r)" };
+            src.push_str(&format!("DISPLAY(\"call\")\nr <- {name}({})\n{show}\n", args.join(", ")));
             for a in &args {
                 src.push_str(&format!("DISPLAY({a})\n"));
             }
@@ -96,6 +98,16 @@ pub fn c10(ctx: &Ctx) -> PropResult {
         for f in forms {
             cases.push(run_case(format!("{}{}", exemplar_prelude(), f), "statement-form"));
         }
+    }
+    // limits of the procedure machinery: 254 .. 257 and 300 parameters / arguments, declared, called, mis-called
+    for n in [0usize, 1, 254, 255, 256, 257, 300] {
+        let params: Vec<String> = (0..n).map(|i| format!("p{i}")).collect();
+        let args: Vec<String> = (0..n).map(|i| i.to_string()).collect();
+        let decl = format!("PROCEDURE big({}) {{\nRETURN {}\n}}\n", params.join(", "), if n == 0 { "0".to_string() } else { format!("p{}", n - 1) });
+        cases.push(run_case(format!("{decl}DISPLAY(\"declared\")\nDISPLAY(big({}))\n", args.join(", ")), "procedure-limits"));
+        cases.push(run_case(format!("{decl}DISPLAY(\"declared\")\nDISPLAY(big({}))\n", args[..n.saturating_sub(1)].join(", ")), "procedure-limits"));
+        cases.push(run_case(format!("DISPLAY(\"x\")\nDISPLAY([{}])\nAPPEND({})\nundefined_name({})\n", args.join(", "), args.join(", "), args.join(", ")), "procedure-limits"));
+        cases.push(run_case(format!("PROCEDURE two(a, b) {{\nRETURN a\n}}\nDISPLAY(two({}))\n", args.join(", ")), "procedure-limits"));
     }
     // FOR EACH whose body changes the list being traversed (directly, through an alias, through a procedure)
     for src in for_each_mutation_family() {
@@ -304,7 +316,9 @@ pub fn c15(ctx: &Ctx) -> PropResult {
     let n = if ctx.quick() { 2_000 } else { 60_000 };
     for _ in 0..n {
         let lit = random_literal(&mut rng);
-        cases.push(run_case(format!("{pre}x <- {lit}\nDISPLAY(x)\nt <- \"\" + x\nDISPLAY(TO_NUMBER(t) == x)\nDISPLAY(TO_NUMBER(t) - x)\nDISPLAY(x / 3)\nDISPLAY(x * 1.1)\nDISPLAY(-x)\n"), "number-text"));
+        // a literal's value does not depend on what precedes it in the source (multi-byte text shifts byte offsets)
+        let (pre, post) = if rng.chance(1, 3) { (format!("{pre}// ünï 語 😀\nlabel <- \"café\"\n"), format!("DISPLAY(\"é\" + {lit})\n")) } else { (pre.clone(), String::new()) };
+        cases.push(run_case(format!("{pre}x <- {lit}\nDISPLAY(x)\nt <- \"\" + x\nDISPLAY(TO_NUMBER(t) == x)\nDISPLAY(TO_NUMBER(t) - x)\nDISPLAY(x / 3)\nDISPLAY(x * 1.1)\nDISPLAY(-x)\n{post}"), "number-text"));
     }
     // RANDOM: range contract on the implementation; the model draws from its own choice list
     for a in -3i64..=3 {
@@ -314,7 +328,7 @@ pub fn c15(ctx: &Ctx) -> PropResult {
             cases.push(run_case(src, "random-range").aux(format!("{a},{b}")));
         }
     }
-    for (a, b) in [("5", "1"), ("0.5", "0.9"), ("-2.9", "2.9"), ("1", "1000000000"), ("NAN", "3"), ("-INF", "INF")] {
+    for (a, b) in [("5", "1"), ("0.5", "0.9"), ("-2.9", "2.9"), ("1", "1000000000"), ("NAN", "3"), ("-INF", "INF"), ("-1", "10000000000000000000"), ("-10000000000000000000", "10000000000000000000"), ("-INF", "0"), ("-10000000000000000000", "-9000000000000000000")] {
         cases.push(run_case(format!("{pre}r <- RANDOM({a}, {b})\nDISPLAY(r == r)\n"), "random-edge"));
     }
     let oracle = |case: &Case, out: &Outcome| -> Result<bool, String> {
@@ -528,6 +542,16 @@ pub fn c17(ctx: &Ctx) -> PropResult {
             body.push_str("IF (CAN_MOVE(r, \"forward\")) {\nDISPLAY(MOVE_FORWARD(r))\nDISPLAY(FORMAT_ROBOT_ASCII(r))\n}\n");
         }
         cases.push(run_case(format!("IMPORT MOD \"ROBOT\"\nr <- ROBOT_MAP(\"{corridor}\")\n{body}"), "corridor"));
+    }
+    // several robots: every ordered pair of robot markers, adjacent, apart, on different lines; every marker alone
+    let marks = ["n", "N", "e", "E", "s", "S", "w", "W"];
+    for a in marks {
+        cases.push(run_case(format!("IMPORT MOD \"ROBOT\"\nr <- ROBOT_MAP(\".{a}.\")\nDISPLAY(r == NULL)\nDISPLAY(FORMAT_ROBOT_ASCII(r))\n"), "robot-markers"));
+        for b in marks {
+            for grid in [format!("{a}{b}"), format!("{a} {b}"), format!("{a}.#\\n.x{b}"), format!("#{a}\\n{b}"), format!("{a}{a}{b}")] {
+                cases.push(run_case(format!("IMPORT MOD \"ROBOT\"\nr <- ROBOT_MAP(\"{grid}\")\nDISPLAY(r == NULL)\n"), "robot-markers"));
+            }
+        }
     }
     // the other argument kinds
     for (_, e) in EXEMPLARS {
